@@ -22,14 +22,32 @@ STUB_HARNESSES = [
 PROPS = {
     'C01': dict(units=['core_all', 'route'], level='proof'),
     'C02': dict(units=['core_all', 'events', 'route'], level='proof'),
+    'C03': dict(units=['core_all'], level='proof', kani=[
+        K('lemma_score_gt_neg1', 'C03.kani.lemma.score_of_a_connected_candidate_exceeds_the_start_score', kind='lemma'),
+        K('lemma_one_is_q_ok', 'C03.kani.lemma.default_quality_is_in_range', kind='lemma'),
+        K('quality_multiplier_range', 'C03.kani.quality_multiplier_in_035_12'),
+        K('soft_cap_range', 'C03.kani.soft_cap_factor_in_01_1'),
+    ]),
     'C04': dict(units=['core_all', 'route'], level='proof'),
+    'C11': dict(units=['core_all'], level='proof', kani=[
+        K('quality_multiplier_range', 'C11.kani.quality_multiplier_in_035_to_11x103'),
+        K('soft_cap_range', 'C11.kani.soft_cap_factor_in_01_1'),
+        K('in_flight_cap_at_least_one', 'C11.kani.in_flight_cap_at_least_one_packet_and_none_iff_no_target'),
+        K('lemma_score_gt_neg1', 'C11.kani.lemma.scores_are_finite_and_above_the_start_score', kind='lemma'),
+    ]),
     'C05': dict(units=['core_all', 'events', 'route'], level='proof'),
     'C09': dict(units=['core_all', 'events', 'route'], level='proof'),
     'C10': dict(units=['core_all', 'events', 'route'], level='proof'),
     'C06': dict(units=['core_all'], level='proof'),
     'C08': dict(units=['core_all'], level='proof'),
     'C12': dict(units=['core_all'], level='proof'),
-    'C13': dict(units=['core_all', 'events'], level='proof'),
+    'C13': dict(units=['core_all', 'events'], level='proof', kani=[
+        K('effective_stall_window_formula', 'C13.kani.effective_window_is_clamp_4srtt_1000_ceiling_and_pull_window_below_it'),
+    ]),
+    'C14': dict(units=['core_all', 'events'], level='proof', kani=[
+        K('keepalive_ext_roundtrip', 'C14.kani.extended_keepalive_is_38_bytes_standard_prefix_and_decodes_back'),
+        K('smooth_rtt_never_negative_or_nan', 'C14.kani.smoothed_rtt_never_negative'),
+    ]),
     'C07': dict(units=['reg', 'events'], level='proof',
                 kani=[K('reg_packets_layout', 'C07.kani.reg_packets_carry_type_and_id')]),
     'C16': dict(units=[], level='proof', kani=[
